@@ -125,6 +125,8 @@ def check(model: Model, run: Run) -> None:
     reader_construction_total(model, run, mr)
     from ..readerrules import lemma_peek_is_pure
     lemma_peek_is_pure(model, run)
+    from ..readerrules import lemma_consuming_methods_advance
+    lemma_consuming_methods_advance(model, run)
 
 
 
